@@ -103,6 +103,11 @@ class RandomHarness(NativeHarness):
                 return s
         raise _Discard()
 
+    def native_choice(self, name, options):
+        k = self.rng.randrange(len(options))
+        self.inputs["native:" + name] = k
+        return options[k]
+
     def string_any(self, name, min_bytes=0, max_bytes=None):
         alphabet = "abcXYZ 019é€𝄞-_/,\x00"
         hi = max_bytes if max_bytes is not None else 300
